@@ -119,6 +119,12 @@ static std::string run_case(const Case& cs, long* steps_done = nullptr, long* fr
 #endif
         // coupled groups: identical displacement
         for (auto& g : groups) { if (!err.empty()) break; vec3 d0 = cells[g[0].first]->node_lst_[g[0].second].pos_ - before[g[0].first][g[0].second]; for (auto& mem : g) { vec3 d = cells[mem.first]->node_lst_[mem.second].pos_ - before[mem.first][mem.second]; if ((d - d0).norm() > 1e-12 * (1 + d0.norm())) { snprintf(buf, sizeof buf, "coupled-nodes-received-different-displacements: step %d", step + 1); err = buf; } } }
+        // the reference continues from the state the real code produced (each step is judged on its own: a stiff parameter set, |1 - c*dt/m| >> 1, amplifies rounding differences exponentially over a trajectory)
+        if (err.empty()) for (unsigned ci = 0; ci < cells.size(); ci++) for (unsigned ni = 0; ni < ref[ci].n.size(); ni++) { RefNode& r = ref[ci].n[ni]; if (!r.live) continue; const node& n = cells[ci]->node_lst_[ni]; r.x[0] = n.pos_.dx(); r.x[1] = n.pos_.dy(); r.x[2] = n.pos_.dz();
+#if DYNAMIC_MODEL_INDEX == 0
+            r.p[0] = n.momentum_.dx(); r.p[1] = n.momentum_.dy(); r.p[2] = n.momentum_.dz();
+#endif
+        }
     }
     for (auto& c : cells) c->clear_data(); if (any_motion && steps_done) g_cases_with_motion++;
     return err;
